@@ -11,7 +11,7 @@ def run(prop, tier, seed, t0):
     exe = build.build_harness(s[0], s[1], **s[2])
     R = core.Runner(prop, tier, seed)
     res = core.Result()
-    nc, nd = (60000, 6000) if thorough else (2200, 220)   # the first 552 cases are the exhaustive (L, l<=L) level grid
+    nc, nd = (30000, 6000) if thorough else (2200, 220)   # the first 552 cases are the exhaustive (L, l<=L) level grid
     R.run_sharded(res, exe, ['side=0'], nc, label='h_c14/asan', variant='asan')
     R.run_sharded(res, exe, ['side=1'], nd, label='h_c14/asan', variant='asan')
     cov = {
